@@ -19,11 +19,13 @@ import shutil
 
 import numpy as np
 
-from common import coqc_many, parse_evals, parse_zlist, coq_string, VERIF
+from common import coqc, coqc_many, parse_evals, parse_zlist, coq_string, VERIF
+import c06_translate
 
 THEOREMS = ["C06_key_encoding_injective", "C06_refines", "C06_last_write_wins", "C06_other_keys_untouched",
             "C06_never_written_raises", "C06_rejected_update_keeps_old", "C06_writes_under_root",
-            "C06_flatten_injective", "C06_add_routes_to_own_family", "C06_refuted_unfixed"]
+            "C06_flatten_injective", "C06_add_routes_to_own_family", "C06_refuted_unfixed",
+            "C06_valid_calls_return", "C06_check_seq_sound", "C06_arrow_alias_witness", "C06_file_names_injective"]
 
 # ---------------------------------------------------------------------------------------------
 # families: the kinds of the dictionary levels, the Coq constructors, the functions
@@ -1364,6 +1366,48 @@ def _count_writes(h):
     return cnt
 
 
+TIE_V = """(* generated: the tables regenerated from the source coincide with the model's (checked by computation in the kernel) *)
+From Coq Require Import ZArith List Bool String.
+Require Import Cherab.Model.C06_Repo Cherab.Model.C06_Spec Cherab.Model.C06_Tables Cherab.Gen.C06.Source.
+Lemma paths_tie : list_eqb path_entry_eqb src_paths model_paths = true.
+Proof. vm_compute. reflexivity. Qed.
+Lemma routes_tie : list_eqb route_eqb src_routes model_routes = true.
+Proof. vm_compute. reflexivity. Qed.
+Lemma consts_tie : list_eqb const_eqb src_consts model_consts = true.
+Proof. vm_compute. reflexivity. Qed.
+Lemma shift_tie : forallb (shift_agrees src_shifted_types) model_adf11_types = true.
+Proof. vm_compute. reflexivity. Qed.
+"""
+
+
+def translator_tie(ctx, repo):
+    """path templates, delegation routes and constants are regenerated from the source and compared with the model's
+    tables by coqc (Gen/C06/Source.v, Tie.v)"""
+    try:
+        paths, routes, consts, _ = c06_translate.extract(repo)
+    except (c06_translate.TranslateError, SyntaxError, OSError, KeyError, IndexError, AttributeError, ValueError) as e:
+        ctx.obligation("translator: tables regenerated from cherab/openadas (fail-closed)", "tie", False, repr(e))
+        return {}
+    info = {"path_templates": len(paths), "routes": len(routes), "constants": len(consts)}
+    src = ctx.write_gen("Source.v", c06_translate.to_coq(paths, routes, dict(consts)))
+    tie = ctx.write_gen("Tie.v", TIE_V)
+    ok, out = coqc(src, timeout=300)
+    if ok:
+        ok, out = coqc(tie, timeout=300)
+    which = ""
+    if not ok:
+        import re as _re
+        m = _re.search(r'Tie.v", line (\d+)', out)
+        if m:
+            ln = int(m.group(1))
+            which = [l for l in TIE_V.splitlines()[:ln] if l.startswith("Lemma")][-1].split()[1]
+    ctx.obligation("Gen tie Tie.v: paths_tie (%d templates of writers and readers), routes_tie (%d delegations with repository_path), "
+                   "consts_tie (%d), shift_tie" % (len(paths), len(routes), len(consts) - 1), "tie", ok,
+                   ("first failing lemma: %s\n" % which) + out[-1200:] + "\nsource tables:\n" + c06_translate.to_coq(paths, routes, dict(consts))[-2500:]
+                   if not ok else "")
+    return info
+
+
 def registry_check(ctx):
     """assumptions of the model about species symbols, checked on the whole element registry"""
     from cherab.core.atomic import elements, Element
@@ -1391,7 +1435,8 @@ def run(ctx):
         "the ADF parsers (property C08) are replaced by stubs when the install_* front ends are exercised",
     ]
     ctx.assumptions += [
-        "transition levels do not contain the character '>' (otherwise 'a -> b' does not split uniquely); species symbols are distinct "
+        "the UPPER level of a transition does not contain the character '>' (the lower level is unrestricted; "
+        "C06_arrow_alias_witness shows the hypothesis cannot be dropped); species symbols are distinct "
         "after lower() and contain no path separator (checked on the element registry at every run)",
         "repositories addressed in one history are equal or cannot share a file (no repository nested inside another one)",
         "arguments are of the documented types (Element objects, int charges/metastables, int or str levels); TypeError paths are not modelled",
@@ -1399,12 +1444,13 @@ def run(ctx):
         "transition is missing or the metastable is absent from the returned list",
     ]
     ctx.rebuild()
-    ctx.proofs("Properties.C06", THEOREMS, extra_modules=("Model.C06_Check", "Proofs.C06_Check"))
+    ctx.proofs("Properties.C06", THEOREMS, extra_modules=("Model.C06_Check", "Proofs.C06_Check", "Model.C06_Tables"))
 
     import cherab
     from common import REPO
     assert list(cherab.__path__) == [REPO + "/cherab"], cherab.__path__
     n_syms = registry_check(ctx)
+    tie_info = translator_tie(ctx, REPO)
     w = World(os.environ["VERIF_SCRATCH"])
     rng = ctx.rng
     quick = ctx.quick
@@ -1416,7 +1462,7 @@ def run(ctx):
         hh["origin"] = os.path.basename(p)
         hist.append(hh)
     n_corpus = len(hist)
-    n_gen = 170 if quick else 1500
+    n_gen = 140 if quick else 1500
     if ctx.replay:
         # bin/check C06 quick --replay file : only the history stored in the replay
         rp = json.load(open(ctx.replay))["replay"]
@@ -1429,7 +1475,7 @@ def run(ctx):
     g = Gen(rng, quick)
     for _ in range(n_gen):
         hist.append(g.history())
-    cap = 50 if quick else 70
+    cap = 45 if quick else 70
 
     # ---- second-order entry points: create.populate; rejections after the file was opened -------------
     pop_h, pop_after, pop_info = populate_stage(ctx, w, rng, cap)
@@ -1541,11 +1587,19 @@ def run(ctx):
                          "repository_path_forms": extra_tot["repo_forms"], "invalid_leaf_kinds": extra_tot["bad_kinds"],
                          "derived_calls(repeat/rewrite/toggle/respell/reroute)": extra_tot["derived"],
                          "reads": sum(len(t) * len(q) for _, _, q, t, _ in cases), "registry_symbols": n_syms,
-                         "create.populate": pop_info, "rejected_after_open_probe": {"scenarios": 3, "failing": [p["scenario"] for p in probe]}},
-        "tolerance": "none: values are compared bit for bit (float64 tobytes, shape, entry names); ids, outcomes and file sets exactly",
+                         "create.populate": pop_info, "tables_regenerated_from_source": tie_info, "rejected_after_open_probe": {"scenarios": 3, "failing": [p["scenario"] for p in probe]}},
+        "tolerance": "none. In Python: values bit for bit (float64 tobytes, shape, entry names) -> value ids. Inside Coq (vm_compute, "
+                     "Model/C06_Check.v:check_seq, soundness C06_check_seq_sound), exactly: per call the outcome (returned / ValueError; the model "
+                     "decides validity itself from the charges, metastables and the numpy shapes of every array of every leaf), after every call the "
+                     "value id or RuntimeError under every key of the universe, at the end the set of files. Kernel-checked tie lemmas "
+                     "(Gen/C06/Tie.v): 26 path templates with argument roles of all writers and readers, 42 delegation routes with "
+                     "repository_path hand-over, default path, encode_transition format and case folding, valid_classes, valid_charge and "
+                     "metastable guards, ADF11 charge-shift types, ADF15 thermal-CX target",
         "partial": ["install_* front ends are exercised from the parsed data on (stub parsers); the parsers are property C08",
                     "TypeError paths (non-Element arguments) and non-int metastables/charges are not modelled",
-                    "os.path.join flattening of the component lists is not modelled (components are checked slash-free)",
+                    "os.path.join itself is not modelled; that joining the model's components with '/' is injective for slash-free "
+                    "symbols is proved (C06_flatten_injective, C06_file_names_injective) and the path templates are regenerated from "
+                    "the source and compared with the model's in the kernel (Gen/C06/Tie.v)",
                     "numpy-integer metastables of beam CX are kept out of the histories: they hit the known finding "
                     "'truncated-by-rejected-write' (probed separately on every run)"],
     })
